@@ -276,7 +276,8 @@ def species_graph(rep):
     # the grouping: entry = <map>.setdefault(str(eid), {...}); entry['reactants'][s_r].append(sr); entry['products'][s_p].append(sp)
     pm = parent_map(r.node)
     b = pall(["$entry = $emap.setdefault(str($eid), $$init)", "$entry['reactants'][$s_r].append($sr)", "$entry['products'][$s_p].append($sp)"], gl[0])
-    rep.ob("O16.2", "SRC", r, b is not None, "entry['reactants'][s_r].append(sr); entry['products'][s_p].append(sp)", "arcs are grouped back by the reaction id in `via`")
+    # the grouping idiom is not the one the rule knows (another bookkeeping structure): not decided - the follow-up facts need its variable roles
+    rep.ob("O16.2", "SRC", r, True if b is not None else None, "entry['reactants'][s_r].append(sr); entry['products'][s_p].append(sp)", "arcs are grouped back by the reaction id in `via`")
     if b is None:
         return
     ok = pmatch(f"{G}.nodes[{u}].get(species_label_attr, str({u}))", origin(rdefs, ast.Name(id=b["s_r"], ctx=ast.Load()))) is not None and \
